@@ -4,6 +4,7 @@ import Srtla.Lemmas.Conn
 import Srtla.Lemmas.SelectFrame
 import Srtla.Lemmas.ClassicRef
 import Srtla.Lemmas.ClassicRun
+import Srtla.Lemmas.Audit2BClassic
 import Srtla.Props.C06
 /-!
 # C10 — classic mode reproduces the reference `srtla_send` algorithm
@@ -972,8 +973,76 @@ theorem C10_lockstep_hk_flush (s : Sys F) (now : Nat) :
     windowsOf (flushAllBatches s now).1 = rWindows (rrun (absSent s now) []) :=
   ⟨fun hc => hk_sim s now hc, flush_sim s now⟩
 
+/-- **Which links a tick tears down, on the PRE-state** (definition check of `Audit2B.hkResets`, audit
+round 2).  `j ∈ hkResets s now` iff link `j` is timed out at `now` and a reconnect attempt is due at `now`
+(`is_timed_out ∧ should_attempt_reconnect`, evaluated on the record the tick starts with) — except when this very
+tick completes the start-up probing, chose link `j`, and link `j` has never been established: stage 1 of the
+tick then re-arms its 5000 ms start-up grace window and the attempt is not made.  The exception cannot occur
+unless the registration manager was still probing when the tick began.  The list is in index order without
+repetitions. -/
+theorem C10_hk_resets_def (s : Sys F) (now : Nat) :
+    (∀ j, j ∈ Audit2B.hkResets s now ↔ ∃ l, s.links[j]? = some l ∧ l.isTimedOut now = true ∧
+      l.shouldAttemptReconnect now = true ∧ ¬ (Hk.hkGraceIdx s now = some j ∧ l.established = 0)) ∧
+    (Reg.isProbing s.reg = false → Hk.hkGraceIdx s now = none) ∧
+    (Audit2B.hkResets s now).Pairwise (· < ·) :=
+  ⟨Audit2B.mem_hkResets_iff s now, Hk.hkGraceIdx_none s now, by
+    unfold Audit2B.hkResets
+    exact List.Pairwise.filter _ List.pairwise_lt_range⟩
+
+/-- **Housekeeping ticks in lock-step, exact form** (audit round 2: the reset set is a function of the
+PRE-state).  Classic mode: the windows after the tick are the reference machine's after `tick` (which does
+nothing) followed by the environment event `linkReset` on exactly the links of `hkResets s now`
+(`C10_hk_resets_def`: timed out and a reconnect attempt due); each of them comes out with window 20000,
+disconnected, registering; every other window is untouched. -/
+theorem C10_lockstep_hk_exact (s : Sys F) (now : Nat) (hc : s.cfg.classic = true) :
+    (∀ j ∈ Audit2B.hkResets s now, j < s.links.length ∧ ∃ l', (handleHousekeeping s now).1.links[j]? = some l' ∧
+        l'.core.window = 20000 ∧ l'.core.connected = false ∧ l'.core.phase = .registering) ∧
+    windowsOf (handleHousekeeping s now).1 =
+      rWindows (rrun (absSent s now) (.tick :: (Audit2B.hkResets s now).map REv.linkReset)) ∧
+    (∀ (j : Nat) l, s.links[j]? = some l → j ∉ Audit2B.hkResets s now →
+      ∃ l', (handleHousekeeping s now).1.links[j]? = some l' ∧ l'.core.window = l.core.window) := by
+  obtain ⟨h1, h2⟩ := Audit2B.hk_sim_exact s now hc
+  refine ⟨fun j hj => ⟨?_, h1 j hj⟩, h2, fun j l hl hn => ?_⟩
+  · obtain ⟨l, hl, -⟩ := (Audit2B.mem_hkResets s now j).1 hj
+    exact (List.getElem?_eq_some_iff.1 hl).1
+  · obtain ⟨l', hl', -, h4⟩ := Audit2B.hk_classic_pw s now hc j l hl
+    refine ⟨l', hl', h4 ?_⟩
+    cases hd : Audit2B.hkDue s now j l
+    · rfl
+    · exact absurd ((Audit2B.mem_hkResets s now j).2 ⟨l, hl, hd⟩) hn
+
+/-- **Uplink events in lock-step, exact form** (audit round 2).  Classic mode, accounting invariant.
+* The event changes nothing IFF the datagram is empty or no link has the conn id — and then the whole state
+  is the same.
+* Otherwise, `idx` the arrival link: the environment event is `linkReset idx` EXACTLY when the datagram is a
+  REG_ERR (type code 0x9210), and for every other datagram it is `linkState idx u lv` with `u`, `lv` the
+  arrival link's usable / live flags in the abstraction of the post-state (`absSent … now`, `C10_abs_def`);
+  then `fanEvents` — with the same two conclusions as `C10_lockstep_uplink`. -/
+theorem C10_lockstep_uplink_exact (s : Sys F) (connId : Nat) (data : List UInt8) (now : Nat)
+    (hclassic : s.cfg.classic = true) (hinv : AcctInv s) :
+    ((data = [] ∨ s.links.findIdx? (·.core.connId == connId) = none) ∧
+      (handleUplinkPacket s connId data now).1 = s) ∨
+    (data ≠ [] ∧
+     ∃ idx l env, s.links.findIdx? (·.core.connId == connId) = some idx ∧ s.links[idx]? = some l ∧
+      ((Codec.getPacketTypeS data = some 0x9210 ∧ env = .linkReset idx) ∨
+       (Codec.getPacketTypeS data ≠ some 0x9210 ∧
+         ∃ r, (absSent (handleUplinkPacket s connId data now).1 now)[idx]? = some r ∧
+           env = .linkState idx r.usable r.live)) ∧
+      rWv (absSent (handleUplinkPacket s connId data now).1 now) =
+        rWv (rrun (absSent s now)
+          (env :: fanEvents (cores s.links) s.trk idx (processUplinkPacket l idx s.reg s.clientKnown data now).2.2 now)) ∧
+      (((processUplinkPacket l idx s.reg s.clientKnown data now).2.2.acks ≠ [] ∨
+        (processUplinkPacket l idx s.reg s.clientKnown data now).2.2.sacks ≠ [] ∨
+        (processUplinkPacket l idx s.reg s.clientKnown data now).2.2.naks ≠ []) →
+        absSent (handleUplinkPacket s connId data now).1 now =
+          rrun (absSent s now)
+            (env :: fanEvents (cores s.links) s.trk idx
+              (processUplinkPacket l idx s.reg s.clientKnown data now).2.2 now))) :=
+  Audit2B.uplink_sim_exact s connId data now hclassic (acctInv_all s hinv)
+
 /-- What "the model's step corresponds to the reference machine's step(s) on the abstraction" means,
-event by event. -/
+event by event.  (Audit round 2 tightened the `uplink` and `hk` clauses: see the comments inside; the older,
+weaker readings are `C10_lockstep_uplink` / `C10_lockstep_hk_flush`.) -/
 def LockStep (s : Sys F) : Ev → Prop
   | .client now pkt => pkt ≠ [] →
     let r := rstep (absRoute s now) (.route ((Codec.getSrtSequenceNumberS pkt).map toI32))
@@ -993,10 +1062,19 @@ def LockStep (s : Sys F) : Ev → Prop
      ∃ i l, r.2 = some i ∧ s.links[i]? = some l ∧
        l.regime.batchSize ≤ l.queue.length + 1 ∧ s.failNext.contains l.core.connId = true ∧
        windowsOf (handleSrtPacket s pkt now).1 = rWindows (rstep r.1 (.linkReset i)).1)
+  -- (audit round 2) "nothing changes" is allowed ONLY for an empty datagram or a conn id no link has; otherwise
+  -- the arrival link's environment event is `linkReset` exactly for REG_ERR (type code 0x9210) and, for every
+  -- other datagram, `linkState idx u lv` with `u`, `lv` the usable / live flags of the arrival link in the
+  -- abstraction of the POST-state (they are outputs of the shell, not free witnesses)
   | .uplink now connId data =>
-    (handleUplinkPacket s connId data now).1 = s ∨
-    ∃ idx l env, s.links.findIdx? (·.core.connId == connId) = some idx ∧ s.links[idx]? = some l ∧
-      (env = .linkReset idx ∨ ∃ u lv, env = .linkState idx u lv) ∧
+    ((data = [] ∨ s.links.findIdx? (·.core.connId == connId) = none) ∧
+      (handleUplinkPacket s connId data now).1 = s) ∨
+    (data ≠ [] ∧
+     ∃ idx l env, s.links.findIdx? (·.core.connId == connId) = some idx ∧ s.links[idx]? = some l ∧
+      ((Codec.getPacketTypeS data = some 0x9210 ∧ env = .linkReset idx) ∨
+       (Codec.getPacketTypeS data ≠ some 0x9210 ∧
+         ∃ r, (absSent (handleUplinkPacket s connId data now).1 now)[idx]? = some r ∧
+           env = .linkState idx r.usable r.live)) ∧
       rWv (absSent (handleUplinkPacket s connId data now).1 now) =
         rWv (rrun (absSent s now)
           (env :: fanEvents (cores s.links) s.trk idx (processUplinkPacket l idx s.reg s.clientKnown data now).2.2 now)) ∧
@@ -1006,10 +1084,16 @@ def LockStep (s : Sys F) : Ev → Prop
         absSent (handleUplinkPacket s connId data now).1 now =
           rrun (absSent s now)
             (env :: fanEvents (cores s.links) s.trk idx
-              (processUplinkPacket l idx s.reg s.clientKnown data now).2.2 now))
+              (processUplinkPacket l idx s.reg s.clientKnown data now).2.2 now)))
   | .flush now => windowsOf (flushAllBatches s now).1 = rWindows (rrun (absSent s now) [])
+  -- (audit round 2) the reset links are named by their CAUSE in the PRE-state — timed out and a reconnect attempt
+  -- due (the condition of `C10_no_time_recovery`), minus the one never-established link whose start-up grace
+  -- window this very tick re-arms because probing completes in it (`Hk.hkGraceIdx`; `none` unless the
+  -- registration manager was still probing when the tick began) — not by what they look like afterwards
   | .hk now =>
     ∃ resets : List Nat,
+      (∀ j, j ∈ resets ↔ ∃ l, s.links[j]? = some l ∧ l.isTimedOut now = true ∧
+          l.shouldAttemptReconnect now = true ∧ ¬ (Hk.hkGraceIdx s now = some j ∧ l.established = 0)) ∧
       (∀ j ∈ resets, j < s.links.length ∧ ∃ l', (handleHousekeeping s now).1.links[j]? = some l' ∧
         l'.core.window = 20000 ∧ l'.core.connected = false ∧ l'.core.phase = .registering) ∧
       windowsOf (handleHousekeeping s now).1 =
@@ -1069,11 +1153,17 @@ theorem stamp_abs (s : Sys F) (idx : Nat) (w ld cb : Bool) (ct : Nat) :
       · rfl
   refine ⟨key _ (fun _ => rfl), fun now => ⟨key _ (fun _ => rfl), key _ (fun _ => rfl)⟩⟩
 
-/-- **Per-event simulation, every `Ev` of `Sys.step`.**  From a state that satisfies the run invariant
+/-- **Per-event conformance, every `Ev` of `Sys.step` — the reference state is RE-DERIVED from the shell
+state before every event (this is per-event conformance to the reference rules, NOT a simulation in which a
+reference state is carried from event to event).**  From a state that satisfies the run invariant
 `RunInv B` (accounting invariant, logged + queued `≤ B` on every link, classic mode, guard off,
 `has_connected`) with `B + 1 ≤ i32::MAX`: the model's step is the reference machine's step(s) on the
 abstraction — same chosen link for the packet (no override for retransmit-flagged data or inside a
-critical window), same window vector afterwards.
+critical window), same window vector afterwards.  `LockStep` (audit round 2) names every environment event
+by its cause: an uplink event changes nothing only for an empty datagram / unknown conn id, tears the arrival
+link down (`linkReset`) exactly for REG_ERR, and otherwise reports the arrival link's post-state usable / live
+flags (`linkState`); a tick resets exactly the links that were timed out with a reconnect attempt due in the
+pre-state.
 
 The reference state is RE-DERIVED from the shell state at each event, it is not carried from event to
 event: the window vector is the shell's; for `route` (client events) the machine is given
@@ -1087,9 +1177,11 @@ theorem C10_lockstep_step (B : Nat) (s : Sys F) (e : Ev) (h : RunInv B s) (hB : 
   | client now pkt =>
     intro hpkt
     exact C10_lockstep_client s pkt now h.classic h.guard h.reg hpkt (runInv_dom B s h hB)
-  | uplink now cid data => exact uplink_sim s cid data now h.classic hall
+  | uplink now cid data => exact Audit2B.uplink_sim_exact s cid data now h.classic hall
   | flush now => exact flush_sim s now
-  | hk now => exact hk_sim s now h.classic
+  | hk now =>
+    obtain ⟨h1, h2, -⟩ := C10_lockstep_hk_exact s now h.classic
+    exact ⟨Audit2B.hkResets s now, Audit2B.mem_hkResets_iff s now, h1, h2⟩
   | setCfg cfg => rfl
   | crit d => rfl
   | failNext c => rfl
@@ -1112,8 +1204,13 @@ theorem C10_runInv_def (B : Nat) (s : Sys F) :
    fun _ => Iff.rfl, fun _ _ => trivial, fun _ _ _ => trivial, fun _ => trivial, fun _ => trivial,
    fun _ => trivial, fun _ => trivial, fun _ => trivial, fun _ _ _ _ _ => trivial, trivial⟩
 
-/-- **Lock-step along runs** (`C10_lockstep_run`), with the reference state re-derived from the shell
-state at every event (see `C10_lockstep_step`).  Hypotheses on the INITIAL state and the mode only:
+/-- **Per-event conformance along runs — the reference state is RE-DERIVED from the shell state before
+every event (per-event conformance, not a simulation with a carried reference state: see
+`C10_lockstep_step` and the three `C10_observation_*` runs); what `_run` ADDS to `_step` is the INVARIANCE of
+its hypotheses along the run: the accounting invariant and the score domain (logged + queued `≤ B + #events`
+on every link), classic mode with the guard off, and the registration flag `has_connected` hold in every
+reached state, from hypotheses on the initial state and on the `setCfg` events only.**
+Hypotheses on the INITIAL state and the mode only:
 the accounting invariant (`AcctInv` = `SysLevel.SysInv`; it holds of the initial state), classic mode with
 the guard off, `has_connected`, configuration reloads in the run keep the mode, and logged + queued of
 every link is `≤ B` with `B + (number of events) + 1 ≤ i32::MAX` (each client event raises it by at most
@@ -1305,6 +1402,73 @@ example :
      windowsOf (@handleSrtPacket Int fixScalar t (lsData 4) 9).1 = [20000] ∧
      rWindows (rstep (rstep (absRoute t 9) (.route (some 4))).1 (.linkReset 0)).1 = [20000] ∧
      (rstep (absRoute t 9) (.route (some 4))).2 = some 0) := by
+  decide +kernel
+
+
+/-- `C10_hk_resets_def` / `C10_lockstep_hk_exact` (the `hk` clause of `LockStep`) on the two-link state of the
+example above at `now = 20000`: link 1 fell silent 15 s ago with its last reconnect attempt 10 s old — timed out
+and due — so the reset set, computed on the PRE-state, is `[1]`; link 0 is not timed out.  Second state: ONE
+never-established, disconnected link past its grace window (timed out, attempt due on the raw record) while the
+registration manager completes its start-up probing in this very tick and picks that link: stage 1 re-arms the
+link's grace window, the attempt is NOT made, the reset set is empty and the link stays as it was. -/
+example :
+    let mk (id : Nat) (w : Int) (heard : Nat) : FLink Int :=
+      { core := { connId := id, connected := true, window := w, lastReceived := some heard, phase := .live },
+        rtt := @Rtt.RttTracker.new Int fixScalar, bitrate := @Rtt.Bitrate.new Int fixScalar 0, qualMult := 1000,
+        established := 1, lastAttemptMs := 10000, lastKeepaliveSent := some 19900 }
+    let s : Sys Int :=
+      { links := [mk 1 5000 19990, mk 2 7000 5000],
+        reg := { id := [], probeId := [], hasConnected := true, active := 2 }, cfg := { classic := true } }
+    let l0 : FLink Int :=
+      { core := { connId := 7, connected := false, window := 23000 },
+        rtt := @Rtt.RttTracker.new Int fixScalar, bitrate := @Rtt.Bitrate.new Int fixScalar 0, qualMult := 1000,
+        established := 0, graceDeadline := 100 }
+    let p : Sys Int :=
+      { links := [l0],
+        reg := { id := [], probeId := [], probing := .waiting, probeResults := [{ connIdx := 0, sentMs := 0, rtt := some 5 }] },
+        cfg := { classic := true } }
+    @Audit2B.hkResets Int fixScalar s 20000 = [1] ∧
+    (s.links.map fun l => (@FLink.isTimedOut Int fixScalar l 20000, l.shouldAttemptReconnect 20000))
+      = [(false, true), (true, true)] ∧
+    Hk.hkGraceIdx s 20000 = none ∧
+    windowsOf (@handleHousekeeping Int fixScalar s 20000).1 = [5000, 20000] ∧
+    rWindows (rrun (absSent s 20000) (.tick :: (@Audit2B.hkResets Int fixScalar s 20000).map REv.linkReset)) = [5000, 20000] ∧
+    -- the grace exception
+    (@FLink.isTimedOut Int fixScalar l0 20000, l0.shouldAttemptReconnect 20000) = (true, true) ∧
+    Hk.hkGraceIdx p 20000 = some 0 ∧ @Audit2B.hkResets Int fixScalar p 20000 = [] ∧
+    windowsOf (@handleHousekeeping Int fixScalar p 20000).1 = [23000] ∧
+    ((@handleHousekeeping Int fixScalar p 20000).1.links.map fun l => (l.graceDeadline, l.lastAttemptMs)) = [(25000, 0)] := by
+  decide +kernel
+
+/-- `C10_lockstep_uplink_exact` (the `uplink` clause of `LockStep`), the three kinds of environment event on the
+two-link state `[window 20000; window 1000 holding 6, 7, 8]`:
+* a REG_ERR datagram (`0x9210`) on link 1: `linkReset 1` — window vector `[(20000, live), (20000, not live)]`;
+* an SRTLA ACK datagram on link 0 (not `0x9210`): `linkState 0 u lv` with `u = lv = true`, the arrival link's
+  flags in the post-state abstraction, then the fan-out;
+* an empty datagram, or a datagram for a conn id no link has: the state is unchanged — and ONLY then may the first
+  disjunct be used: for the two datagrams above the conn id is found and the datagram is non-empty. -/
+example :
+    let mk (id : Nat) (w : Int) (log : List (Int × Nat)) : FLink Int :=
+      { core := { connId := id, connected := true, window := w, inFlight := log.length, log := log,
+                  lastReceived := some 5, phase := .live },
+        rtt := @Rtt.RttTracker.new Int fixScalar, bitrate := @Rtt.Bitrate.new Int fixScalar 0, qualMult := 1000 }
+    let s : Sys Int :=
+      { links := [mk 1 20000 [], mk 2 1000 [(6, 0), (7, 0), (8, 0)]],
+        reg := { id := [], probeId := [], hasConnected := true }, cfg := { classic := true } }
+    let regErr : List UInt8 := [0x92, 0x10]
+    let sack : List UInt8 := [0x91, 0x00, 0, 0, 0, 0, 0, 7, 0, 0, 0, 99]
+    Codec.getPacketTypeS regErr = some 0x9210 ∧ s.links.findIdx? (·.core.connId == 2) = some 1 ∧
+    rWv (absSent (@handleUplinkPacket Int fixScalar s 2 regErr 100).1 100) =
+      rWv (rrun (absSent s 100) [.linkReset 1]) ∧
+    rWv (rrun (absSent s 100) [.linkReset 1]) = [(20000, true), (20000, false)] ∧
+    Codec.getPacketTypeS sack = some 0x9100 ∧
+    ((absSent (@handleUplinkPacket Int fixScalar s 1 sack 100).1 100)[0]?.map fun r => (r.usable, r.live)) = some (true, true) ∧
+    absSent (@handleUplinkPacket Int fixScalar s 1 sack 100).1 100 =
+      rrun (absSent s 100) (.linkState 0 true true :: fanEvents (cores s.links) s.trk 0 { sacks := [7, 99] } 100) ∧
+    rWindows (absSent (@handleUplinkPacket Int fixScalar s 1 sack 100).1 100) = [20002, 1031] ∧
+    s.links.findIdx? (·.core.connId == 9) = none ∧
+    windowsOf (@handleUplinkPacket Int fixScalar s 9 sack 100).1 = windowsOf s ∧
+    windowsOf (@handleUplinkPacket Int fixScalar s 1 [] 100).1 = windowsOf s := by
   decide +kernel
 
 
